@@ -91,6 +91,33 @@ CHECKS = {
              "checks no double evaluation, budget, result type, acceptance under the last uniform vector, truncation and raise-on-failure.",
         note="Batch sizes are not predicted. 'Library too small' is demanded only when the first batch exceeds the budget.",
     ),
+    "C05": dict(
+        engine=E3 + " + " + E2, category="model_checking", design="§4 C05",
+        technique="exhaustive enumeration (no state merging) of operation histories on one real kernel helper, of execution paths x batching x pools through the public API, and of every chunk-size/chunk-order schedule of a modelled pool; bitwise comparison with fresh-helper singleton values; real MultiPool conformance",
+        text="All histories to depth 3/4 over 21 helper operations x 3 prior configurations on the real compiled kernel (rows chosen to collide on "
+             "every reused buffer, incl. pickling round trips), all (path, n_batches 1..N+2, pool) combinations with the real kernel, every chunking x "
+             "chunk order of the modelled pool on the stub kernel, and the same matrix on real MultiPool(2)/(3): every value must be bitwise the "
+             "value of that row alone on a fresh helper, in input order; equal seeds must give the same accepted set on every path.",
+        note="Workers share no memory, so (chunking, order, helper sharing) is the observable schedule space; checked, not proved, by MultiPool conformance runs.",
+    ),
+    "C10": dict(
+        engine=E3 + " + " + E2, category="model_checking", design="§4 C10",
+        technique="exhaustive enumeration of call histories on one TheJoker, each executed three times (equal seeds twice, different global random state once) with bitwise output comparison and global-state probes; pool-schedule enumeration; forced-collision stream test",
+        text="All histories to depth 2/3 over 7 API operations (incl. prior samples by count, both paths, iterative sampler, prior.sample) are run "
+             "from equal seeds twice and once with different numpy/Python global seeds: outputs bitwise equal per step, global states untouched, "
+             "different seed changes the output; file-path operations are bitwise equal across 8 modelled pool schedules and real MultiPool(2); "
+             "identical always-accepted rows in different batches and repeated calls never repeat a linear draw.",
+        note="Stub kernel (fixed function of the row) with the real prior; pymc's draw is trusted to be a function of the generator passed.",
+    ),
+    "C13": dict(
+        engine=E2, category="fault_enumeration", design="§4 C13",
+        technique="exhaustive single-fault (thorough: two-fault) injection at every call instruction executed in thejoker's Python code (sys.monitoring), x exception types, with leak / user-file / follow-up oracles",
+        text="For 7 API variants x {object cache, user file} x {SerialPool + real kernel, modelled pool + stub with pickling}, every call event "
+             "inside thejoker's code (about 7.4k executions quick) fails once; the exception must reach the caller, no temporary HDF5 may remain, "
+             "the user's file keeps its sha256/mtime and a follow-up call on the same TheJoker returns the reference values. A real MultiPool(2) "
+             "slice covers process workers. This is the literal quantifier of the property (every call, k-th invocation).",
+        note="Faults are exceptions at call boundaries in Python code; SIGKILL / faults inside C calls are outside the model. The cleanup's own unlink is excluded from the leak oracle.",
+    ),
 }
 NOT_YET = {}
 
